@@ -157,11 +157,11 @@ theorem prV5Connack_st (c : C) (x : Except Nat Pkt) : StSum 2 c (prV5Connack c x
           · refine .resume p rfl rfl hr hs ?_ ?_
             · simp [hr, hs, propsFold_recvs]
             · simp only [hr, hs, if_true, push_s]
-              rw [sendStored_store, h]; simp
+              rw [resendStored_store, sendStored_store, h]; simp
           · refine .newSess p rfl (.inr ⟨rfl, hr, .inr hm⟩) ?_ ?_
             · simp [hr, hs, propsFold_recvs]
             · simp only [hr, hs, if_true, push_s]
-              rw [sendStored_store, h]; simp [fits]
+              rw [resendStored_store, sendStored_store, h]; simp [fits]
       · exact .keep (by simp [hr])
 
 theorem prPuback_st (c : C) (x : Except Nat Pkt) : StSum 4 c (prPuback c x) x := by
